@@ -52,9 +52,32 @@ replication.go `onLeaderUpdate`): see the header of Sys/Snap5.lean.
      other handlers (header of Lemmas/SnapDelayF.lean) — the frameworks of Lemmas/Inv.lean treat the leader record as
      opaque.  The protocol's transitions are tied to the model by `consume_is_onLeaderUpdate`, `deliver_is_replUpdLoop`,
      `C09.checkLogCompact_effect`.
+4. THE FRAME of the leader's compaction bookkeeping, for every operation (guarded closure framework with its own
+   induction over the leader block: Lemmas/SnapDelayG1–G3.lean), and the protocol composed with the node model
+   (SnapDelayG4/G5.lean):
+   * `status_frame_handle` / `status_frame_step` / `status_frame_replUpdates` / `status_frame_snapTaken`: no handler other
+     than `onSnapshotTaken` (and `leader.init`) changes `ldr.removeLTE`; no handler other than the case `removeLTE` of the
+     loop of `checkReplUpdates` changes the `removeLTE` of a status it keeps; new statuses are created with `removeLTE =
+     ldr.removeLTE`; `leaderInit_resets` / `leadership_change_all_new`: `leader.init` sets `ldr.removeLTE := log.prev`
+     and on a leadership change ALL replications are new.
+   * `leader_step_keeps_views_partial`: for an ordered leader state coupled with the ghost of its goroutines and any
+     operation (except `shutdown`, `install`, and batches of updates other than the batch of the waiting reports), the
+     state after the step is coupled again with the ghost the step determines, and `log.prev` did not move, or is at or
+     below every view (delayed compaction; new leadership), or was moved by the IMMEDIATE compaction of
+     `onSnapshotTaken` and is at or below every MATCH INDEX.
+   STILL MISSING (so `views_valid_sys_snap5` is not stated): (a) "`log.prev ≤ view j` in every reachable state" is FALSE
+   as it stands — the immediate compaction does not consult the views (`exImm`); the true invariant is `log.prev ≤ view j
+   ∨ log.prev ≤ the goroutine's match index` and needs, beyond this file, monotone match-index reports and the
+   goroutine-side fact `nextIndex - 1 ≥ matchIndex` (and even then a goroutine reads AT its match index: second
+   observation of section 3); (b) `NoReAdd` (no member is removed and added again inside one handler) needs reasoning
+   about configurations through the leader block; (c) batches that mix `removeLTE` reports with other updates: the frame
+   says which statuses such a batch can produce (`status_frame_replUpdates`), the FIFO bookkeeping (`latest`) through a
+   loop interleaved with configuration actions is done only for the batch of the waiting reports; (d) the ghost-extended
+   cluster system itself.
 -/
 import RaftVerif.Lemmas.SnapDelayE
 import RaftVerif.Lemmas.SnapDelayF
+import RaftVerif.Lemmas.SnapDelayG5
 import RaftVerif.Sys.SnapView
 import RaftVerif.Props.C09Sys2
 import RaftVerif.Props.C15NoPanic
@@ -743,6 +766,124 @@ def exServe : Repl.Out :=
     { log := (exL0.log.removeLTE 5), snapIndex := 12, snapTerm := 2 } true
 #guard (exL0.log.removeLTE 5).prev == 5 && exServe.err == "notFound" && ((exL0.log.removeLTE 5).get? 6).isSome
 
+/-! ## 4. the frame of the leader's compaction bookkeeping, and the protocol composed with the node model
+
+Guarded closure framework: Lemmas/SnapDelayG1.lean (`ClosedG`, its own induction over the mutually recursive leader
+block), SnapDelayG2.lean (the handler pass), SnapDelayG3.lean (the frame), SnapDelayG4/G5.lean (the composition). -/
+
+/-- **The frame lemma (handlers).** Every handler of `Node.handle` except `onSnapshotTaken`, the loop of
+`checkReplUpdates` and `shutdown` (`FOp`), from ANY state: `ldr.removeLTE` is unchanged, and every status of the
+replication table afterwards holds `ldr.removeLTE` (it is NEW: `addReplication` creates a status with `removeLTE =
+ldr.removeLTE` and a goroutine whose view is `ViewAt(ldr.removeLTE, lastLogIndex)`) or has the id and the `removeLTE` of a
+status of the table before (`Inh`). -/
+theorem status_frame_handle (s : Node) (op : Op) (hop : StepClosedG.FOp op) :
+    (s.handle op).ldr.removeLTE = s.ldr.removeLTE ∧
+    ∀ r ∈ (s.handle op).ldr.repls, r.removeLTE = s.ldr.removeLTE ∨ Inh s r.id r.removeLTE :=
+  handle_status_frame s op hop
+
+/-- **The frame lemma (steps, leadership change).** For the same operations through the role transitions of a step: the
+conclusion of `status_frame_handle` — or `leader.init` ran and EVERY status holds the bound (`FreshL`: all replications of
+a new leadership are new). `leader.init` itself, from any state: `ldr.removeLTE := log.prev`, all statuses new, `log.prev`
+unchanged (`leaderInit_resets`); and if the handler of a leader left the role `leader` and the node leads after the step,
+`leader.init` ran last: `ldr.removeLTE = log.prev` and all statuses hold it (`NewLeadership`). -/
+theorem status_frame_step (s : Node) (op : Op) (ra : List Nat) (ord : List (List Nat)) (hop : StepClosedG.FOp op) :
+    ((s.step op ra ord).ldr.removeLTE = s.ldr.removeLTE ∧
+      ∀ r ∈ (s.step op ra ord).ldr.repls, r.removeLTE = s.ldr.removeLTE ∨ Inh s r.id r.removeLTE) ∨
+    FreshL (s.step op ra ord).ldr :=
+  step_status_frame s op ra ord hop
+
+theorem leaderInit_resets (s : Node) :
+    s.leaderInit.ldr.removeLTE = s.log.prev ∧ FreshL s.leaderInit.ldr ∧ s.leaderInit.log.prev = s.log.prev :=
+  leaderInit_spec s
+
+theorem leadership_change_all_new (s : Node) (op : Op) (ra : List Nat) (ord : List (List Nat)) (hl : s.role = .leader)
+    (hh : ((s.begin ra ord).handle op).role ≠ .leader) (hop : op ≠ .shutdown)
+    (hl' : (s.step op ra ord).role = .leader) : NewLeadership (s.step op ra ord) :=
+  step_new_leadership s op ra ord hl hh hop hl'
+
+/-- **The frame lemma (`onSnapshotTaken`).** The replication table is untouched (only `ldr.removeLTE` is set: to
+`CanLTE(canCompact)`, or to the new `log.prev`); and what `onSnapshotTaken` compacts AT ONCE is not beyond the MATCH INDEX
+of any replication of a leader. **The views of the goroutines are not consulted** — see `exImm` below: the immediate
+compaction may go beyond the first index of every view; it relies on a goroutine never reading at or below its match
+index (for `prevLogTerm` it reads AT `nextIndex - 1`, which may be the match index: second observation of section 3). -/
+theorem status_frame_snapTaken (s : Node) (hok : C09.SegsOK s.log) :
+    s.onSnapshotTaken.ldr.repls = s.ldr.repls ∧
+    (s.onSnapshotTaken.log.prev = s.log.prev ∨
+      (s.role = .leader → ∀ r ∈ s.ldr.repls, s.onSnapshotTaken.log.prev ≤ r.matchIndex)) :=
+  snapTaken_status_frame s hok
+
+/-- **The frame lemma (`checkReplUpdates`, any batch).** `ldr.removeLTE` is unchanged; every status afterwards is new,
+inherited, or holds an index that a `removeLTE` report of the batch carried for its id: nothing but the case `removeLTE`
+of the loop changes the `removeLTE` of a status. -/
+theorem status_frame_replUpdates (s : Node) (us : List ReplUpdate) :
+    (s.checkReplUpdates us).ldr.removeLTE = s.ldr.removeLTE ∧
+    ∀ r ∈ (s.checkReplUpdates us).ldr.repls,
+      r.removeLTE = s.ldr.removeLTE ∨ Inh s r.id r.removeLTE ∨ Reported us r.id r.removeLTE :=
+  replUpdates_status_frame s us
+
+/-- **What a step of a leader does to the views of its replication goroutines (partial).** Let `s` be an ordered leader
+state with current caches, coupled with the ghost `(q, view)` of its goroutines as in every reachable state of the
+repaired report protocol (`Coupled`), and let the node handle `op` without failing and lead afterwards, where `op` is any
+operation except `shutdown`, `install`, and batches of replication updates other than the batch of the waiting reports
+(`LOp`). Assume `NoReAdd` for the handler (a status whose id existed is inherited: no member is removed and added again
+inside one handler — NOT proved, it needs reasoning about configurations). Then there is a ghost `(q', view')` after the
+step, determined by the step —
+* a NEW LEADERSHIP (the handler left the role): `ldr.removeLTE = log.prev`, every replication is new, `view' j =
+  ldr.removeLTE`, nothing waits; or
+* the SAME LEADERSHIP: the goroutines that existed keep their views, those of new replications start at
+  `ldr.removeLTE` (`viewAfter`), the reports of stopped goroutines are dropped (`queueAfter`) or — for the batch of the
+  waiting reports — all reports are taken —
+with which the state after the step is coupled again, and the first index of the log
+* did not move, or
+* is at or below `view' j` for EVERY replication `j` (the delayed compaction, and a new leadership), or
+* was moved by the immediate compaction of `onSnapshotTaken` and is at or below every replication's MATCH INDEX (not:
+  view). -/
+theorem leader_step_keeps_views_partial (s : Node) (op : Op) (ra : List Nat) (ord : List (List Nat))
+    (q : List (Nat × Nat)) (view : Nat → Nat)
+    (ho : Order.Ordered s) (hl : s.role = .leader) (hC : C06Cache.LeaderCache s)
+    (hc : Coupled s q view) (hop : LOp q op)
+    (hre : StepClosedG.FOp op → NoReAdd (s.begin ra ord) ((s.begin ra ord).handle op))
+    (hp : (s.step op ra ord).panicked = none) (hl' : (s.step op ra ord).role = .leader) :
+    ∃ q' view',
+      Coupled (s.step op ra ord) q' view' ∧
+      ((NewLeadership (s.step op ra ord) ∧ q' = [] ∧ ∀ j, view' j = (s.step op ra ord).ldr.removeLTE) ∨
+       ((q' = queueAfter s q ∨ q' = []) ∧ view' = viewAfter s view (s.step op ra ord).ldr.removeLTE)) ∧
+      ((s.step op ra ord).log.prev = s.log.prev ∨
+       (∀ r ∈ (s.step op ra ord).ldr.repls, (s.step op ra ord).log.prev ≤ view' r.id) ∨
+       (op = .snapTaken ∧ ∀ r ∈ s.ldr.repls, (s.step op ra ord).log.prev ≤ r.matchIndex)) :=
+  leader_step_keeps_views s op ra ord q view ho hl hC hc hop hre hp hl'
+
+set_option maxRecDepth 100000 in
+/-- example for `leader_step_keeps_views_partial`: the leader `exD2` with the report of replication 3 waiting (both
+goroutines read through views starting at 4), for the batch of the waiting reports and for an election timeout
+(`checkQuorum`) -/
+example : Order.Ordered exD2 ∧ exD2.role = .leader ∧ C06Cache.LeaderCache exD2 ∧ Coupled exD2 [(3, 4)] (fun _ => 4) ∧
+    LOp [(3, 4)] (.replUpdates (rmBatch [(3, 4)])) ∧ LOp [(3, 4)] .timeout ∧
+    NoReAdd (exD2.begin [] []) ((exD2.begin [] []).handle .timeout) ∧
+    (exD2.step .timeout [] []).panicked = none ∧ (exD2.step .timeout [] []).role = .leader := by
+  refine ⟨⟨⟨by decide, by decide, by decide, by decide, by decide, by decide, ⟨by decide, by decide, by decide⟩,
+    by decide, by decide⟩, by decide⟩, by decide, fun _ => ⟨by decide, by decide, by decide, by decide, by decide⟩,
+    ?_, .reports, .frame _ trivial (fun m h => by cases h), ?_, by decide, by decide⟩
+  · intro r hr
+    have hr' : r ∈ [exReplR 2 6 4, exRepl 3 2 true] := by
+      have e : exD2.ldr.repls = [exReplR 2 6 4, exRepl 3 2 true] := by decide
+      rw [← e]; exact hr
+    rcases List.mem_cons.mp hr' with rfl | h
+    · decide
+    · have : r = exRepl 3 2 true := List.mem_singleton.mp h
+      rw [this]
+      decide
+  · unfold NoReAdd HasId Inh
+    decide
+
+/-- the immediate compaction does not look at the views (evaluated): the leader `exD0` with BOTH followers matched 6 and
+in contact; the snapshot at 5 is handed over: `nowCompact = CanLTE(5) = 4` — the log is compacted to 4 at once, while the
+goroutines, which have not yet taken the update sent by `notifyFlr`, read through views that start at 0 -/
+def exImm : Node :=
+  ({ exD0 with ldr := { exD0.ldr with repls := [exRepl 2 6 false, exRepl 3 6 false] } } : Node).step .snapTaken [] []
+#guard exImm.log.prev == 4 && exImm.ldr.removeLTE == 4 && exImm.trace.map (·.1) == ["compactLog"] &&
+  exImm.ldr.repls.map (fun r => (r.id, r.matchIndex, r.removeLTE)) == [(2, 6, 0), (3, 6, 0)] && exImm.panicked.isNone
+
 end C09Sys4
 end Raft
 
@@ -765,5 +906,12 @@ end Raft
 #print axioms Raft.C09Sys4.removeLTE_lowered
 #print axioms Raft.C09Sys4.consume_is_onLeaderUpdate
 #print axioms Raft.C09Sys4.deliver_is_replUpdLoop
+#print axioms Raft.C09Sys4.status_frame_handle
+#print axioms Raft.C09Sys4.status_frame_step
+#print axioms Raft.C09Sys4.leaderInit_resets
+#print axioms Raft.C09Sys4.leadership_change_all_new
+#print axioms Raft.C09Sys4.status_frame_snapTaken
+#print axioms Raft.C09Sys4.status_frame_replUpdates
+#print axioms Raft.C09Sys4.leader_step_keeps_views_partial
 #print axioms Raft.SnapDelay.inv5_reachable
 #print axioms Raft.SnapDelay.trans_of_trans2
